@@ -508,6 +508,30 @@ CORPUS_TEXTS = [
 ]
 
 
+def long_line_cases(rng, tier):
+    """lines far beyond any buffer size (64 KiB, 1 MiB in the thorough tier): one clause with thousands of literals
+    written and read back, and hand-made texts whose clause / comment / `p` line is that long"""
+    out = []
+    sizes = [13000, 14500] if tier == "quick" else [13000, 14500, 30000, 180000]
+    for n in sizes:
+        clause = [v if rng.random() < .5 else -v for v in range(1, n + 1)]
+        rng.shuffle(clause)
+        for u in (False, True):
+            out.append(("w", dict(src="hand", n=n, clauses=[clause, [-n, 1]], export_header=u, export_varnames=False, u=u)))
+        body = " ".join(str(l) for l in clause)
+        texts = [
+            ("p cnf {} 2\n{} 0\n{} 1 0\n".format(n, body, -n), "long-clause"),
+            ("c " + "x" * (len(body) + 7) + "\np cnf {} 1\n{} 0\n".format(n, body), "long-comment+clause"),
+            ("p cnf" + " " * 70000 + "{} 1\n{}\n{} 0\n".format(n, body[:len(body) // 2], body[len(body) // 2:]), "long-p"),
+        ]
+        for text, kind in texts:
+            formula = None
+            if kind != "long-p":
+                formula = (n, [clause, [-n, 1]] if kind == "long-clause" else [clause])
+            out.append(("r", dict(text=[ord(c) for c in text], u=rng.random() < .5, kind="long:" + kind, formula=formula)))
+    return out
+
+
 def cases(ctx):
     tier, seed = ctx["tier"], ctx["seed"]
     infos = []
@@ -516,6 +540,7 @@ def cases(ctx):
             infos.append(("r", dict(text=[ord(c) for c in text], u=u, kind="corpus:" + kind)))
             infos.append(("lex", dict(text=[ord(c) for c in text], u=u, kind="corpus")))
     infos += writer_cases(common.sub_rng(seed, "C06", "w"), tier)
+    infos += long_line_cases(common.sub_rng(seed, "C06", "long"), tier)
     infos += [("wl", dict(pow=4300, u=u, export_header=eh)) for u in (False, True) for eh in (False, True)]
     infos += reader_cases(common.sub_rng(seed, "C06", "r"), 2500 if tier == "quick" else 120000)
     infos += lex_cases(common.sub_rng(seed, "C06", "lex"), 1500 if tier == "quick" else 40000)
